@@ -68,6 +68,7 @@ def rawdur(rng: random.Random, d: int, p=0.3):
 
 
 def gen_interp(rng: random.Random, d=None, malformed=False):
+    d_given = d
     n = rng.choice([2, 2, 3, 3, 4, 5, 6])
     if d is None:
         d = rng.choice([1, 2, 3, 4, 5, 8, 10, 16, 25, 50, 100, 129])
@@ -97,6 +98,29 @@ def gen_interp(rng: random.Random, d=None, malformed=False):
         else:
             vals = vals[:1]
             times = None
+    if not malformed and (d_given is None or d >= 40) and rng.random() < 0.4:
+        # non-default interpolators / interpolator kwargs; kept away from
+        # colliding data points (their handling is interpolator specific)
+        d = d if d_given is not None else rng.choice([40, 57, 58, 100, 129, 200])
+        if times is not None:
+            inner = sorted(rng.sample([i / 8 for i in range(1, 8)], n - 2)) if n > 2 else []
+            times = [0.0] + inner + [1.0]
+        cfgs = [
+            {"interpolator": "interp1d"},
+            {"interpolator": "interp1d", "kind": "linear"},
+            {"interpolator": "interp1d", "kind": "previous"},
+            {"interpolator": "interp1d", "kind": "next"},
+            {"interpolator": "interp1d", "kind": "nearest"},
+            {"interpolator": "interp1d", "kind": "linear", "fill_value": "extrapolate"},
+            {"interpolator": "interp1d", "kind": "slinear", "bounds_error": False},
+            {"interpolator": "PchipInterpolator", "extrapolate": True},
+            {"interpolator": "PchipInterpolator", "extrapolate": False},
+        ]
+        if n >= 3:
+            cfgs += [{"interpolator": "interp1d", "kind": "quadratic"}] * 3
+        if n >= 4:
+            cfgs += [{"interpolator": "interp1d", "kind": "cubic"}] * 3
+        return ["interp", rawdur(rng, d, 0.3), vals, times, rng.choice(cfgs)]
     return ["interp", rawdur(rng, d, 0.4), vals, times]
 
 
@@ -161,7 +185,7 @@ def perturb(rng: random.Random, W, eps):
         return ["blackman", W[1], p(W[2])]
     if k == "kaiser":
         return ["kaiser", W[1], p(W[2]), W[3]]
-    return ["interp", W[1], [p(x) for x in W[2]], W[3]]
+    return ["interp", W[1], [p(x) for x in W[2]], W[3]] + list(W[4:])
 
 
 def wdur(W) -> int:
@@ -188,7 +212,11 @@ def gen_ops(rng: random.Random, W):
     ops.append(["mul", rng.choice([2.0, -3.0, 0.5, 0.0, 1e-3, -1.0, 1.0 / 3.0, rng.uniform(-5, 5)])])
     ops.append(["neg"])
     ops.append(["div", rng.choice([2.0, -4.0, 0.0, -0.0, 3.0, 0.1, rng.uniform(-5, 5)])])
-    ops.append(["chdur", rawdur(rng, rng.choice([1, 2, 3, 3, 4, 10, 0, -2, d, d + 1, rng.randint(1, 150)]), 0.4)])
+    if W[0] == "interp" and len(W) > 4:
+        for _ in range(2):
+            ops.append(["chdur", rawdur(rng, rng.choice([40, 41, 57, 58, 100, 129, 200, 0, -2, d, d + 1, rng.randint(40, 250)]), 0.3)])
+    else:
+        ops.append(["chdur", rawdur(rng, rng.choice([1, 2, 3, 3, 4, 10, 0, -2, d, d + 1, rng.randint(1, 150)]), 0.4)])
     c = rng.random()
     if c < 0.25:
         other = W
